@@ -46,6 +46,9 @@ Record line_obs := LO {
 Record actcase := AC {
   ac_lib : libcase;
   ac_seq : bool;
+  (* oracle: (note, (directory, text of the note's tables written in that directory)) for the other
+     directories of the library: note links in table cells are written relative to the note *)
+  ac_xtables : list (string * (string * list string));
   ac_lines : list line_obs;
   ac_acts : list act_obs
 }.
@@ -92,6 +95,27 @@ Definition tables_of_tree (env : tenv) (t : tree) : list string :=
                      | None => ["<missing table oracle>"]
                      end) (table_ids t).
 
+(* the same tables written into another directory: (table node id, directory, text) *)
+Definition xenv := list (nat * string * string).
+Definition xenv_of (g : graph) (x : list (string * (string * list string))) : xenv :=
+  flat_map (fun kt => match collect_key g (fst kt) with
+                      | Ok t => map (fun it => (fst it, fst (snd kt), snd it)) (zip_tables (table_ids t) (snd (snd kt)))
+                      | Panic _ => []
+                      end) x.
+Definition xlookup (xe : xenv) (i : nat) (dir : string) : option string :=
+  match find (fun e => Nat.eqb (fst (fst e)) i && String.eqb (snd (fst e)) dir) xe with
+  | Some e => Some (snd e)
+  | None => None
+  end.
+Definition tables_of_tree_at (xe : xenv) (env : tenv) (dir : string) (t : tree) : list string :=
+  flat_map (fun o => match o with
+                     | Some i => match xlookup xe i dir with
+                                 | Some s => [s]
+                                 | None => match alookup_nat i env with Some s => [s] | None => ["<missing table oracle>"] end
+                                 end
+                     | None => ["<missing table oracle>"]
+                     end) (table_ids t).
+
 (* ---------- the model side of one step -------------------------------------------------- *)
 
 Definition created_keys (l : list och) : list string :=
@@ -105,11 +129,11 @@ Definition kg_of (seq : bool) (obs : res (list och)) : keygen :=
   if seq then KSeq else KRand (match obs with Ok l => created_keys l | Panic _ => [] end).
 
 (* handle_code_action_resolve puts the front matter of the updated note back in front of the text *)
-Definition render_change (o : opts) (metas : list (string * string)) (env : tenv) (c : change) : och :=
+Definition render_change (o : opts) (metas : list (string * string)) (xe : xenv) (env : tenv) (c : change) : och :=
   match c with
   | Create k => OCreate k
   | Update k parent t =>
-      OUpdate k (wrap_metadata (alookup k metas) (tree_to_markdown o (tables_of_tree env t) parent t))
+      OUpdate k (wrap_metadata (alookup k metas) (tree_to_markdown o (tables_of_tree_at xe env parent t) parent t))
   | Remove k => ORemove k
   end.
 
@@ -137,8 +161,8 @@ Definition model_tree_changes (cx : actx) (seq : bool) (s : step) : res (list ch
   | _, _ => Panic "not offered"
   end.
 
-Definition model_changes (o : opts) (metas : list (string * string)) (cx : actx) (env : tenv) (seq : bool) (s : step) : res (list och) :=
-  do l <- model_tree_changes cx seq s; Ok (map (render_change o metas env) l).
+Definition model_changes (o : opts) (metas : list (string * string)) (cx : actx) (xe : xenv) (env : tenv) (seq : bool) (s : step) : res (list och) :=
+  do l <- model_tree_changes cx seq s; Ok (map (render_change o metas xe env) l).
 
 (* the library after the editor applied the step's updates and sent didChange for each *)
 Definition graph_after (g : graph) (s : step) : res graph :=
@@ -148,10 +172,10 @@ Definition graph_after (g : graph) (s : step) : res graph :=
 Definition env_after (g2 : graph) (env : tenv) (s : step) : tenv :=
   env ++ env_of g2 (map (fun r => (rr_key r, rr_tables r)) (st_after s)).
 
-Definition step_corr (o : opts) (g : graph) (cx : actx) (env : tenv) (seq : bool) (s : step) : bool * bool :=
+Definition step_corr (o : opts) (g : graph) (cx : actx) (xe : xenv) (env : tenv) (seq : bool) (s : step) : bool * bool :=
   (offer_eqb (model_offer g cx s) (st_offer s),
    match step_target s with
-   | Some _ => res_eqb (list_eqb och_eqb) (model_changes o (gr_meta g) cx env seq s) (st_changes s)
+   | Some _ => res_eqb (list_eqb och_eqb) (model_changes o (gr_meta g) cx xe env seq s) (st_changes s)
    | None => true
    end).
 
@@ -175,6 +199,7 @@ Definition act_corr (c : actcase) (kinds : list nat) : list N :=
       let o := o_of lc in
       let env := lib_env lc g in
       let cx := cached_ctx g in
+      let xe := xenv_of g (ac_xtables c) in
       flag 1 (forallb (fun ob => res_eqb tree_eqb (collect_key g (no_key ob)) (no_tree ob)) (lo_notes lc) &&
               forallb (fun ob => res_eqb String.eqb (to_markdown o (tables_for lc (no_key ob)) g (no_key ob)) (no_text ob)) (lo_notes lc)) ++
       flag 2 (forallb (fun l =>
@@ -184,7 +209,7 @@ Definition act_corr (c : actcase) (kinds : list nat) : list N :=
                                  | Some ak => offer_at cx at_line ak
                                  | None => Panic "kind" end) (seq 1 7))
                   (ln_offers l)) (ac_lines c)) ++
-      let firsts := map (fun a => step_corr o g cx env (ac_seq c) (ao_first a))
+      let firsts := map (fun a => step_corr o g cx xe env (ac_seq c) (ao_first a))
                         (filter (fun a => existsb (Nat.eqb (st_kind (ao_first a))) kinds) (ac_acts c)) in
       flag 3 (forallb fst firsts) ++ flag 4 (forallb snd firsts) ++
       let seconds := flat_map (fun a =>
@@ -193,7 +218,7 @@ Definition act_corr (c : actcase) (kinds : list nat) : list N :=
                           | None => []
                           | Some s2 =>
                               match graph_after g (ao_first a) with
-                              | Ok g2 => [step_corr o g2 (cached_ctx g2) (env_after g2 env (ao_first a)) (ac_seq c) s2]
+                              | Ok g2 => [step_corr o g2 (cached_ctx g2) xe (env_after g2 env (ao_first a)) (ac_seq c) s2]
                               | Panic _ => [(false, false)]
                               end
                           end
